@@ -8,6 +8,8 @@ import (
 	"sync"
 
 	"github.com/prometheus/prometheus/model/labels"
+
+	"github.com/thanos-community/promql-engine/verifhook"
 )
 
 type filteredSelector struct {
@@ -40,6 +42,7 @@ func (f *filteredSelector) GetSeries(ctx context.Context, shard, numShards int) 
 }
 
 func (f *filteredSelector) loadSeries(ctx context.Context) error {
+	defer verifhook.NoPark()()
 	series, err := f.selector.GetSeries(ctx, 0, 1)
 	if err != nil {
 		return err
